@@ -396,6 +396,26 @@ def sc_sigchld_handler_reaps_child(env):
     return {"statuses": got, "exitcode": code, "alive": alive, "after_join": p.exitcode}
 
 
+def sc_connection_wait_on_sentinels(env):
+    """connection.wait() on a queue's reader and the workers' sentinels: the documented way to learn
+    about data or a death, whichever comes first"""
+    wait = env.mp.connection.wait
+    q = env.mp.Queue()
+    ev = env.mp.Event()
+    p1 = env.mp.Process(target=w_put_items, args=(q, ["a"]))
+    p2 = env.mp.Process(target=w_exit3, args=(ev,))
+    p1.start()
+    p2.start()
+    first = wait([q._reader, p2.sentinel], 5.0)
+    got = q.get(timeout=1.0)
+    p1.join()
+    idle = wait([q._reader, p2.sentinel], 0.2)
+    ev.set()
+    dead = wait([q._reader, p2.sentinel], 5.0)
+    p2.join()
+    return {"first_is_reader": first == [q._reader], "got": got, "idle": len(idle), "dead_is_sentinel": dead == [p2.sentinel], "code": p2.exitcode}
+
+
 def w_sq_child(q, n):
     for i in range(n):
         q.put(i)
@@ -491,7 +511,7 @@ SCENARIOS = [
     sc_normal_exit, sc_exception_flushes, sc_sys_exit_3, sc_sigkill_prefix, sc_get_timeout_empty, sc_per_worker_fifo,
     sc_dead_means_flushed, sc_exitcode_while_alive, sc_terminate, sc_join_before_drain_big, sc_killed_holding_lock,
     sc_torn_frame_blocks_get, sc_pool_map, sc_pool_exception, sc_pool_worker_killed, sc_pool_sys_exit_in_task, sc_pool_close_join,
-    sc_pipe_eof, sc_simplequeue, sc_condition_turns, sc_joinable_queue, sc_reader_lock_leak, sc_pipe_eof_inside_message, sc_sigchld_handler_reaps_child,
+    sc_pipe_eof, sc_simplequeue, sc_condition_turns, sc_joinable_queue, sc_reader_lock_leak, sc_pipe_eof_inside_message, sc_sigchld_handler_reaps_child, sc_connection_wait_on_sentinels,
 ]
 
 
@@ -506,6 +526,8 @@ class RealEnv:
         import multiprocessing
 
         assert multiprocessing.get_start_method() == "fork"
+        import multiprocessing.connection  # noqa: F401
+
         self.mp = multiprocessing
         self.os = os
         self.signal = signal
